@@ -373,6 +373,9 @@ def m_num(ctx):
         return [(None, z3.If(a < 0, -a, a))]
     if op in ('is_negative',):
         return [(None, a < 0)]
+    if op == 'div_ceil' and not signed:
+        q = z3.UDiv(a, b); r = z3.URem(a, b)
+        return [(b == 0, Diverge('panic', 'attempt to divide by zero')), (b != 0, z3.If(r != 0, q + 1, q))]
     raise MirError(f'no model for integer op {ty}::{op}')
 
 
